@@ -346,9 +346,15 @@ def roundtrip(case, fmt, rec, scratch):
 
 
 # ---------------------------------------------------------------- yml specifications
-def fmt_num(rng, v):
+def fmt_num(rng, v, allow_dot=False):
     """Render a float in one of the notations a user writes; returns (text, value)."""
-    c = int(rng.integers(5))
+    c = int(rng.integers(6 if allow_dot else 5))
+    if c == 5:
+        # mantissa without a digit before the point, with / without sign: .5e-3  -.25E2  +.75e3
+        mant = int(rng.integers(1, 100))
+        e = int(rng.integers(-5, 6))
+        txt = f"{str(rng.choice(['', '-', '+']))}.{mant}{str(rng.choice(['e', 'E']))}{e}"
+        return txt, float(txt)
     if c == 0:
         return repr(v), v
     if c == 1:
@@ -411,8 +417,10 @@ def gen_yml(rng):
                 lines.append(f"{indent}- {dtxt}")
                 continue
             pos += 1
-            vt, val = fmt_num(rng, float(rng.uniform(-3, 3)))
             form = int(rng.integers(5))
+            # (the leading-dot notation only as the value of a [label, value, ...] item: as a bare item or an option the
+            # text is not a number for the yml reader and its treatment is not part of the statement)
+            vt, val = fmt_num(rng, float(rng.uniform(-3, 3)), allow_dot=form in (1, 2, 4))
             known = [e["label"] for e in expected if "expression" not in e]
             own, otxt = gen_options(True, known) if form in (2, 4) else ({}, None)
             if form == 0:
